@@ -1,6 +1,6 @@
 (* C11 — property theorems (statements only; proofs live in Proofs.v; vocabulary in Spec.v / Model.v). *)
 From Coq Require Import List NArith Bool.
-Require Import QV.C11.Model QV.C11.Spec QV.C11.Proofs QV.C11.Proofs_load.
+Require Import QV.C11.Model QV.C11.Spec QV.C11.Proofs QV.C11.Proofs_load QV.C11.Proofs_kill.
 Import ListNotations.
 Open Scope N_scope.
 
@@ -80,6 +80,46 @@ Theorem C11_crash_safe : forall v b d c o k,
   (no_publish (firstn k steps) = true -> main d' = main d).
 Proof. exact crash_safe_all. Qed.
 Print Assumptions C11_crash_safe.
+
+(* BOTH KINDS OF INTERRUPTION.  `Killed`: the process stops before the k-th primitive and nothing else runs (temporary
+   files stay behind);  `Raised`: the k-th primitive raises and the `except BaseException` clean-up of the interrupted
+   backend call runs.  In both cases a reader sees a storage in which everything loads, old-or-new content, and no
+   change before the first publishing step; after a raise the temporary file of the backend call is gone. *)
+Theorem C11_crash_safe_kill_or_raise : forall ck v b d c o k,
+  safe v b = true -> wf d c -> all_load (view d) -> op_in_scope d o -> guard_C11_cycle d c o = true ->
+  let steps := steps_of (plan_of v b d c o) in
+  let d' := after_crash ck b steps k d in
+  (main d' <> None /\ all_load (view d')) /\
+  (forall i, lookup i (view d') = lookup i (view d) \/ lookup i (view d') = lookup i (view (run steps d))) /\
+  (no_publish (firstn k steps) = true -> main d' = main d) /\
+  (ck = Raised -> (k < length steps)%nat ->
+   match b with BDict => True | BFs => tmpf d' = None | BZip => tmpz d' = None end).
+Proof. exact crash_safe_kinds. Qed.
+Print Assumptions C11_crash_safe_kill_or_raise.
+
+(* HISTORIES of any length of completed operations, operations interrupted by a raise (the same PulseStorage, with
+   its cache as it was, lives on) and operations interrupted by a kill (a new process with an empty cache follows;
+   left-over temporary files are in the state): the invariant `wf` and "everything loads" hold at the end, provided
+   every operation is in scope and passes guard_C11_cycle in the state it is started in. *)
+Theorem C11_history_safe : forall v b l d c,
+  safe v b = true -> wf d c -> all_load (view d) -> history_ok v b d c l ->
+  wf (fst (run_events v b d c l)) (snd (run_events v b d c l)) /\ all_load (view (fst (run_events v b d c l))).
+Proof. exact history_safe. Qed.
+Print Assumptions C11_history_safe.
+
+Theorem C11_history_nonvacuous :
+  forall b, history_ok current b (disk_of ex_store) ex_cache ex_history /\
+            (6 <= length (view (fst (run_events current b (disk_of ex_store) ex_cache ex_history))))%nat.
+Proof. exact history_nonvacuous. Qed.
+Print Assumptions C11_history_nonvacuous.
+
+(* why ZipFileBackend.put must not append a new entry in place (the code after repo commit 61710b6 = `round1` did;
+   repaired by repo commit 09f1282): a process killed between writestr and close leaves no readable archive *)
+Theorem C11_zip_append_refuted :
+  exists d c o k, wf d c /\ all_load (view d) /\ op_in_scope d o /\ guard_C11_cycle d c o = true /\
+    main (after_crash Killed BZip (steps_of (plan_of round1 BZip d c o)) k d) = None.
+Proof. exact zip_append_unsafe. Qed.
+Print Assumptions C11_zip_append_refuted.
 
 (* the hypotheses (and both guards) are satisfiable by a non-trivial input on every backend *)
 Theorem C11_hypotheses_satisfiable :
